@@ -32,6 +32,10 @@ it true, every step of it read off the MIR:
   padding    finalisation overwrites every staging-buffer byte it hands to the compression function (standard_padding
              zero-fills to N / N - rem, sponge pad zeroes between the marker bytes): stale bytes of an earlier split, reset or
              clone cannot reach a digest (shared with C01)
+  shape-eval the same loops by bounded shape evaluation (concrete offsets / lengths, symbolic contents, opaque leaves): block
+             runs of every driver, the sponge absorb loop for every offset and the boundary lengths; where the for-all-lengths
+             rules above cannot recognise a loop shape and this passes, their report is recorded as not decided elsewhere
+  legacy     the legacy Digest wrappers reach their hashing context on every path (input / result / reset; shared with C09)
 Not decided: the digest values themselves (C01), SIMD lane batching (C16)."""
 import re
 
